@@ -10,6 +10,7 @@
 package main
 
 import (
+	"unicode/utf8"
 	"bufio"
 	"fmt"
 	"os"
@@ -41,9 +42,30 @@ func (e *emitter) line(kind string, args string, result string) {
 		e.dist["generation_stopped_at_the_size_cap"] = 1
 		return
 	}
-	n, _ := fmt.Fprintf(e.w, "%s %s => %s\n", kind, args, result)
+	n, _ := fmt.Fprintf(e.w, "%s %s => %s\n", kind, validText(args), validText(result))
 	e.bytes += int64(n)
 	e.n++
+}
+
+// validText: an implementation that emits bytes which are not UTF-8 (a "digit" character computed
+// from an out-of-range value, say) must not make the case file unreadable for the drivers: such
+// bytes, and stray line breaks, are written as \xNN
+func validText(s string) string {
+	if utf8.ValidString(s) && !strings.ContainsAny(s, "\n\r") {
+		return s
+	}
+	var b strings.Builder
+	for i := 0; i < len(s); {
+		r, size := utf8.DecodeRuneInString(s[i:])
+		if (r == utf8.RuneError && size == 1) || r == '\n' || r == '\r' {
+			fmt.Fprintf(&b, "\\x%02x", s[i])
+			i++
+			continue
+		}
+		b.WriteString(s[i : i+size])
+		i += size
+	}
+	return b.String()
 }
 
 // a case file never grows beyond this (a run that would is cut short and says so in its
